@@ -382,6 +382,8 @@ def run(R):
                  "(nearest-wins decoys, other profiles' files, absent base/profile file) x env name casing / value padding / typed-looking strings / unknown and clashing keys; "
                  "non-trivial = some key defined by >= 2 sources or a documented error; distinct by full input",
         )
+        if R.tier == "thorough" and not R.replay and not pxvlib.leanchecker(R, ["Pxv.Thm.C18"]):
+            R.violation("leanchecker rejects Pxv.Thm.C18", {"theorem_modules": ["Pxv.Thm.C18"]}, no_failing_input=True)
     finally:
         shutil.rmtree(root, ignore_errors=True)
     R.coverage["observations"] = dict(OBS)
